@@ -85,6 +85,8 @@ def acceptance(sentences, bits, full_decode):
     -> list of (component, kind, text)."""
     import pyais
     bad = []
+    if not sentences:
+        return [('decoder-acceptance', 'no-sentence', 'no sentence was produced for a non-empty payload')]
     try:
         parts = [pyais.NMEAMessage.from_string(s) for s in sentences]
         for s, part in zip(sentences, parts):
@@ -211,7 +213,7 @@ def run_direct(ctx, cases, want_samples=True):
             lines.append(f'frame {hx(p)} {hx(t)} {hx(c)} {f}')
         else:
             lines.append('fmt 0')
-        if orc and im[0] == 'Ok' and im[1]:
+        if orc and im[0] == 'Ok' and p:
             lines.append(spec_request(t, c, p, f, im[1]))
         else:
             lines.append('fmt 0')
